@@ -390,6 +390,12 @@ def check_history(case, rec):
                     m2 = build_model(spec)
                     k2 = mk_krige(m2, cfg, cond_pos.copy(), cond_val.copy())
                     f2 = gs.CondSRF(k2, mode_no=mode_no)(cur_pos.copy(), seed=seed, **call_kwargs(cfg, cur_pos))
+                    if not np.all(np.isfinite(f2)):
+                        # data (minus trend) outside the normalizer's domain: the fresh object returns NaN, so must the used one
+                        require(bool(np.array_equal(np.isnan(np.asarray(f)), np.isnan(np.asarray(f2)))),
+                                f"{where}: NaN pattern differs from a freshly built Krige+CondSRF", dict(otags, kind="stale"))
+                        rec.exclude("data_outside_normalizer_range")
+                        break
                     scale = max(1.0, float(np.max(np.abs(f2)))) + math.sqrt(spec["var"])
                     err = float(np.max(np.abs(np.asarray(f) - np.asarray(f2))))
                     rec.discrepancy("fresh", err, 1e-8 * scale)
